@@ -85,3 +85,13 @@ Definition flat_ok (pfnames : list str) (lib : list tpl) (name : str) (args : li
   match classify_pf pfnames (canon_pf pfnames name) with PfNone => true | _ => false end &&
   forallb plain args &&
   match find_tpl lib name with Some t => flat_body (t_body t) | None => true end.
+
+(* a page of text and flat calls; each call is replaced by its result, the text stays *)
+Definition flat_item (pfnames : list str) (lib : list tpl) (i : item) : bool :=
+  match i with
+  | Ch _ => true
+  | T (n :: args) => plain n && flat_ok pfnames lib (codes n) args
+  | _ => false
+  end.
+Definition page_result (lib : list tpl) (page : enc) : enc :=
+  flat_map (fun i => match i with T (n :: args) => result_of lib (codes n) args | _ => [i] end) page.
